@@ -11,10 +11,10 @@ from . import refmath as R
 
 BO = dict(ADD=0, AVERAGE_POOL_2D=1, CONCATENATION=2, CONV_2D=3, DEPTHWISE_CONV_2D=4, FULLY_CONNECTED=9, LOGISTIC=14, MAX_POOL_2D=17, MUL=18, RELU=19, RELU_N1_TO_1=20, RELU6=21,
           RESHAPE=22, RESIZE_BILINEAR=23, SOFTMAX=25, TANH=28, CUSTOM=32, PAD=34, TRANSPOSE=39, MEAN=40, SUB=41, SQUEEZE=43, STRIDED_SLICE=45, SPLIT=49, MAXIMUM=55, MINIMUM=57,
-          NEG=59, SLICE=65, SPLIT_V=102, TRANSPOSE_CONV=67, EXPAND_DIMS=70, RESIZE_NEAREST_NEIGHBOR=97, LEAKY_RELU=98, ABS=101, REVERSE_V2=105, QUANTIZE=114, HARD_SWISH=117, FLOOR_DIV=90, DEQUANTIZE=6)
+          NEG=59, SLICE=65, SPLIT_V=102, TRANSPOSE_CONV=67, EXPAND_DIMS=70, RESIZE_NEAREST_NEIGHBOR=97, LEAKY_RELU=98, ABS=101, REVERSE_V2=105, QUANTIZE=114, HARD_SWISH=117, FLOOR_DIV=90, DEQUANTIZE=6, PACK=83, UNPACK=88, EXP=47, SQUARED_DIFFERENCE=99)
 NAME = {v: k for k, v in BO.items()}
 RANGE = {"int8": (-128, 127), "uint8": (0, 255), "int16": (-32768, 32767), "int32": (-(2 ** 31), 2 ** 31 - 1)}
-APPROX = {"LOGISTIC", "TANH", "LEAKY_RELU", "HARD_SWISH", "SOFTMAX", "MEAN", "RESIZE_BILINEAR", "RESIZE_NEAREST_NEIGHBOR", "AVERAGE_POOL_2D"}
+APPROX = {"EXP", "SQUARED_DIFFERENCE", "LOGISTIC", "TANH", "LEAKY_RELU", "HARD_SWISH", "SOFTMAX", "MEAN", "RESIZE_BILINEAR", "RESIZE_NEAREST_NEIGHBOR", "AVERAGE_POOL_2D"}
 
 
 class Unsupported(Exception):
@@ -441,6 +441,30 @@ class Interp:
         alpha = float(np.float32(op.options.scalar(0, "f", 0.0)))
         return self._real_unary(op, lambda v: np.where(v >= 0, v, v * alpha))
 
+    def op_EXP(self, op):
+        return self._real_unary(op, np.exp)
+
+    def op_SQUARED_DIFFERENCE(self, op):
+        # reference_integer_ops / squared_difference.cc, 8-bit: both operands brought to twice the larger scale with 7 extra bits, difference squared, one rescale
+        s1, z1, dt = self.q(op.inputs[0])
+        s2, z2, _ = self.q(op.inputs[1])
+        so, zo, odt = self.q(op.outputs[0])
+        if dt not in ("int8", "uint8"):
+            raise Unsupported("squared difference on " + dt)
+        left_shift = 7
+        twice_max = 2.0 * max(float(np.float32(s1[0])), float(np.float32(s2[0])))
+        m1, e1 = R.quantize_multiplier(float(np.float32(s1[0])) / twice_max)
+        m2, e2 = R.quantize_multiplier(float(np.float32(s2[0])) / twice_max)
+        mo, eo = R.quantize_multiplier(twice_max * twice_max / ((1 << (2 * left_shift)) * float(np.float32(so[0]))))
+        a = v_mbqm((self.get(op.inputs[0]) - z1[0]) * (1 << left_shift), m1, e1)
+        b = v_mbqm((self.get(op.inputs[1]) - z2[0]) * (1 << left_shift), m2, e2)
+        d = a - b
+        sq = d * d
+        if sq.max(initial=0) >= 2 ** 31:
+            raise Unsupported("squared difference beyond the 32-bit range of the reference kernel")
+        lo, hi = RANGE[odt]
+        return np.clip(v_mbqm(sq, mo, eo) + zo[0], lo, hi)
+
     def op_HARD_SWISH(self, op):
         return self._real_unary(op, lambda v: v * np.clip(v + 3.0, 0.0, 6.0) / 6.0)
 
@@ -545,6 +569,15 @@ class Interp:
         if requant:
             self.approx_ops.append("CONCATENATION")
         return np.concatenate(parts, axis=axis)
+
+    def op_PACK(self, op):
+        axis = op.options.scalar(1, "i", 0)
+        return np.stack([self.get(i) for i in op.inputs], axis=axis)
+
+    def op_UNPACK(self, op):
+        axis = op.options.scalar(1, "i", 0)
+        x = self.get(op.inputs[0])
+        return [np.take(x, k, axis=axis) for k in range(x.shape[axis])]
 
     def op_SPLIT_V(self, op):
         sizes = [int(v) for v in self.const(op.inputs[1]).reshape(-1)]
